@@ -11,6 +11,7 @@ import (
 // caseT is the concrete case; it travels as JSON in the trailing comment so `replay` can re-run it.
 type caseT struct {
 	R *rcaseT `json:",omitempty"`
+	B *bcaseT `json:",omitempty"`
 }
 
 func main() {
@@ -24,8 +25,15 @@ func main() {
 		for i, c := range fixedRedact() {
 			fmt.Fprintln(w, emitRedact(fmt.Sprintf("c20-rfix-%d", i), c, st))
 		}
+		for i, c := range fixedBuffer() {
+			fmt.Fprintln(w, emitBuffer(fmt.Sprintf("c20-bfix-%d", i), c, r, st))
+		}
 		for i := 0; i < a.N; i++ {
-			fmt.Fprintln(w, emitRedact(fmt.Sprintf("c20-r-%d-%d", a.Seed, i), genRedact(r, true), st))
+			if i%3 == 2 {
+				fmt.Fprintln(w, emitBuffer(fmt.Sprintf("c20-b-%d-%d", a.Seed, i), genBuffer(r), r, st))
+			} else {
+				fmt.Fprintln(w, emitRedact(fmt.Sprintf("c20-r-%d-%d", a.Seed, i), genRedact(r, true), st))
+			}
 		}
 		st.Emit(w)
 	case "replay":
@@ -39,6 +47,8 @@ func main() {
 			switch {
 			case k.R != nil:
 				fmt.Fprintln(w, emitRedact(id, *k.R, nil))
+			case k.B != nil:
+				fmt.Fprintln(w, emitBuffer(id, *k.B, nil, nil))
 			}
 		}
 	}
